@@ -257,7 +257,7 @@ func c04Run(s *Shard) {
 			}
 		}
 	}
-	for _, idSet := range [][]string{ids6, {"x1", "X1", "b", "B"}} {
+	for _, idSet := range [][]string{ids6, {"x1", "X1", "b", "B"}, {"9", "10", "1a", "01"}, {"1", "01", "10", "9"}} {
 		for n := 1; n <= maxN; n++ {
 			if n > len(idSet) || (idSet[0] != ids6[0] && n > 3) {
 				continue // ids that differ only in letter case: up to three alternatives
